@@ -112,6 +112,27 @@ def seam_program(rng, dict_size, laps=1, rounds=120, alphabet=4):
     return ",".join(toks)
 
 
+def costly_marker_program(rng, reps=220):
+    """a program (lc = lp = pb = 0, dictionary 1 MiB) whose end marker reads 17-18 input bytes: every adaptive
+    probability on the marker's path that can be trained within 64 KiB of history has been driven to the
+    opposite extreme, deepest tree node first (length 273 through the high-length tree, slot 63, align 1111,
+    is_rep, is_match)"""
+    t = ["L97", "R0.273*300"]
+    for d in range(7, -1, -1):
+        ones = 0 if d == 0 else ((1 << d) - 1) << (8 - d)
+        ln = 16 + ones + 2
+        dist = 65537 if d == 7 else (129 + ((1 << d) - 1) if d < 4 else 129)
+        t.append("M%d.%d*%d" % (dist, ln, reps))
+    t.append("M129.10*%d" % reps)          # mid length: choice2 -> 0
+    t.append("M129.5*%d" % reps)           # low length: choice -> 0
+    t += ["L97"] * 4
+    for _ in range(reps):
+        t += ["S", "L97", "L97", "L97"]     # is_rep[0] -> 1
+    t.append("L97*400")                    # is_match[0] -> 0
+    t.append("M4294967296.273")            # the marker, with the longest length
+    return ",".join(t)
+
+
 def lzma_file(m, dict_field=None, size="auto"):
     if size == "auto":
         size = None if m["eos"] else len(m["out"])
@@ -247,6 +268,21 @@ def c01(run: Run):
     for b in core.script([dict(kind="lzma", lc=rng.pick([3, 0, 4]), lp=rng.pick([0, 1]), pb=2, dict=d_, prog=seam_program(rng, d_, rng.pick([1, 2])) + rng.pick(["", ",E"]))
                           for d_ in (4096, 4097)]):
         run.add("lzma us=hdr in=%s" % lzma_file(b).hex(), oracle=exp_ok_out(b["out"]), tag="c01:window-seam")
+    # probabilities driven to their extremes (long runs of one literal, then the improbable symbol), and distances
+    # in the higher position slots (history of about 1 MiB: slots up to 41, many direct bits)
+    reqs = [dict(kind="lzma", lc=lc_, lp=0, pb=pb_, dict=4096, prog="X400.%d.1,L255,X200.%d.1,L0,M1.273,L7,X300.%d.1%s" % (
+        rng.below(99), rng.below(99), rng.below(99), rng.pick(["", ",E"]))) for lc_, pb_ in ((3, 2), (0, 0), (8, 4))]
+    far = ",".join("M%d.%d" % (dd, rng.pick([2, 3, 9, 18, 273])) for k in range(7, 21) for dd in ((1 << k) - 1, 1 << k, (1 << k) + 1, 3 << (k - 1)) if dd < 1090000)
+    reqs.append(dict(kind="lzma", lc=3, lp=0, pb=2, dict=1 << 21, prog="X40.%d.200,M40.273*4000,%s,L65%s" % (rng.below(99), far, rng.pick(["", ",E"]))))
+    for b in core.script(reqs):
+        run.add("lzma us=hdr in=%s" % lzma_file(b).hex(), oracle=exp_ok_out(b["out"]), tag="c01:extreme-probabilities-and-slots")
+        if b["dict"] > 4096:
+            r = liblzma_alone(lzma_file(b))
+            spec_check(run, "lzma high position slots", r[0] == "ok" and r[1] == b["out"])
+    # dictionaries of 128 KiB and 192 KiB lapped more than twice (hand-over of a large window to the sink)
+    for b in core.script([dict(kind="lzma", lc=3, lp=0, pb=2, dict=d_, prog="X300.%d.200,M%d.273*%d,X9.%d.200,M%d.40%s" % (
+            rng.below(99), rng.pick([7, 300]), (d_ * 5 // 2) // 273, rng.below(99), d_, rng.pick(["", ",E"]))) for d_ in (1 << 17, 3 << 16)]):
+        run.add("lzma us=hdr in=%s" % lzma_file(b).hex(), oracle=exp_ok_out(b["out"]), tag="c01:large-window-laps")
     # the end marker is a match with distance 2^32 - 1 of ANY legal length (encoders write the minimum; the
     # format and liblzma accept all); and the marker still ends the stream when the caller asks to ignore a
     # (wrong) size field in the header
@@ -347,6 +383,9 @@ def c02(run: Run):
             # every dictionary reset and at the end)
             script = ",".join(rng.pick(["u1", "u3", "u7", "u100"]) for _ in range(40))
             run.add("lzma2 sink=%s in=%s" % (script, m["payload"].hex()), oracle=exp_ok_out(m["out"]), tag="c02:short-writing-sink")
+        if ch and rng.chance(1, 10):
+            # the caller's reader itself decodes something with the library while it is being read
+            run.add("lzma2 nest=1 in=%s" % m["payload"].hex(), oracle=exp_ok_out(m["out"]), tag="c02:nested-use")
         if len(m["payload"]) < 20000 and ch:
             # the same stream through a reader that hands it over in pieces (seams inside chunk headers)
             hot = [c["off"] + d for c in ch for d in (1, 2, 3, 4, 5, 6)]
@@ -355,6 +394,26 @@ def c02(run: Run):
         if m.get("gen") and run.rng.chance(1, 2):
             r = liblzma_raw2(m["payload"])
             spec_check(run, "lzma2 %s" % m["desc"], r[0] == "ok" and r[1] == m["out"])
+    # a well-formed stream resets dictionary, state and properties in its first chunk: whatever a previous, failed
+    # decode left in the raw decoder object (no reset in between) must not show
+    small = [m for m in mats if 0 < len(m["payload"]) < 4000 and len(m["out"]) > 0]
+    for i in range(sizes(run.tier, 40, 300)):
+        a, b = rng.pick(small), rng.pick(small)
+        pa = a["payload"]
+        bad = rng.pick([pa[:rng.below(len(pa) - 1) + 1], pa[:-1] + b"\x03", pa[:max(1, len(pa) // 2)] + b"\xff" * 9])
+
+        def after_failure(res, meta, peak, out=b["out"], used=len(b["payload"])):
+            toks = res.split(" ")
+            if "panic" in res or v(res) in ("hang", "abort", "missing"):
+                return "panic/hang"
+            want = "ok:%d:%s" % (used, out_repr(out))
+            return None if toks[-1] == want else "a well-formed stream decoded after a failed one (same raw decoder, no reset) gave %s, the format defines %s" % (toks[-1][:60], want[:60])
+        run.add("rawlzma2 ops=%s:%s;d:%s" % (rng.pick(["d", "df"]), bad.hex(), b["payload"].hex()), oracle=after_failure, tag="c02:after-failed-decode")
+    if run.tier == "thorough":
+        # more than 16 MiB since the last dictionary reset, then a copy reaching 9 MiB back
+        big = core.script([dict(kind="lzma2", chunks="|".join(["V1:65536.%d" % 1] + ["V2:65536.%d" % (i_ + 2) for i_ in range(263)]) +
+                                "|C2:3.0.2:M%d.40,L9,M%d.273" % (9 * 1024 * 1024 + 123, 16 * 1024 * 1024))])[0]
+        run.add("lzma2 in=%s" % big["payload"].hex(), oracle=exp_ok_out(big["out"]), tag="c02:window>16MiB", cmp=True)
     run.extra_cov["streams"] = len(mats)
 
 
@@ -401,6 +460,18 @@ def c03(run: Run):
                   [vv[0] + vv[1] for k, vv in f["rec"].items() if not k.startswith("_") and vv[1] > 1]
             run.add("xz rk=%s in=%s" % (reader_kind(run.rng, n, [h for h in hot if 0 < h <= n]), f["data"].hex()),
                     oracle=exp_ok_out(f["out"]), tag="c03:reader", nontrivial=len(f["blocks"]) > 0)
+        if f["blocks"] and f["check"] in (1, 4) and run.rng.chance(1, 6):
+            # a decode that fails late (bad block check: the payload has been decoded) followed, in the same process
+            # and thread, by the valid file again: one-shot decodes share nothing
+            d_ = bytearray(f["data"])
+            o_, ln_ = f["rec"]["b0_check"]
+            d_[o_] ^= 0x01
+            run.add("xz in=%s" % bytes(d_).hex(), oracle=exp_err(), tag="c03:corrupt-then-valid")
+            run.add("xz sink=f in=%s" % f["data"].hex(), oracle=None, tag="c03:sinkfault-then-valid", nontrivial=False)
+            run.add("xz in=%s" % f["data"].hex(), oracle=exp_ok_out(f["out"]), tag="c03:corrupt-then-valid")
+        if f["blocks"] and run.rng.chance(1, 8):
+            # the caller's reader itself decodes something with the library while it is being read
+            run.add("xz nest=1 in=%s" % f["data"].hex(), oracle=exp_ok_out(f["out"]), tag="c03:nested-use")
         if f["blocks"] and run.rng.chance(1, 4):
             # a sink that accepts only part of each write is still a sink: it must receive everything
             script = ",".join(run.rng.pick(["u1", "u3", "u7", "u100"]) for _ in range(60))
@@ -676,6 +747,9 @@ def c05_inputs(run, n):
         inputs.append((lzma_file(m, size=L + 1), "hdr", "size+1"))
         if L > 0:
             inputs.append((lzma_file(m, size=L - 1), "hdr", "size-1"))
+    # a valid stream whose last symbol reads 17-18 input bytes (the look-ahead bound of the streaming decoder is 20)
+    cm = core.script([dict(kind="lzma", lc=0, lp=0, pb=0, dict=1 << 20, prog=costly_marker_program(rng))])[0]
+    inputs.append((lzma_file(cm, size=None), "hdr", "costly-marker"))
     inputs.append((bytes([225]) + bytes(20), "hdr", "bad-props"))
     inputs.append((b"\x5d\x00\x00\x80\x00" + b"\xff" * 8 + b"\x00" * 5, "hdr", "k1-witness"))
     inputs.append((rng.bytes(40), "hdr", "random"))
@@ -697,6 +771,10 @@ def c05(run: Run):
             chs = [[hl] + c for c in compositions(len(data) - hl)] + [[k, len(data) - k] for k in range(1, hl)]
         else:
             chs = chunkings(rng, len(data), per)
+        if kind == "costly-marker":
+            # every two-piece split inside the last 48 bytes, and one-byte pieces over them
+            n_ = len(data)
+            chs = [[n_]] + [[c_, n_ - c_] for c_ in range(n_ - 48, n_)] + [[n_ - 48] + [1] * 48, [n_ - 30, 13, 17]]
         if "@" in kind:
             # cut exactly at the end of the valid stream: what follows arrives in later writes
             b = int(kind.split("@")[1])
@@ -737,9 +815,22 @@ def c15(run: Run):
     mats += core.script([dict(kind="lzma", lc=3, lp=0, pb=2, dict=4096, prog="X%d.%d.4,M%d.9,L65,M%d.3%s" % (
         4200, rng.below(1000), rng.pick([4096, 4095, 3000]), rng.pick([4096, 2049]), rng.pick(["", ",E"])))])
     mats += core.script([dict(kind="lzma", lc=3, lp=0, pb=2, dict=4096, prog=seam_program(rng, 4096, 1, 60) + rng.pick(["", ",E"]))])
+    costly = core.script([dict(kind="lzma", lc=0, lp=0, pb=0, dict=1 << 20, prog=costly_marker_program(rng))])[0]
+    costly["costly"], costly["eos"] = True, 1        # ends with a (long) end marker: no size in the header
+    mats.append(costly)
     # outputs several times larger than the dictionary (laps of the window, copies ending on lap boundaries)
     mats += [m for m in core.gen_material("lzmawrap", run.seed + 15, sizes(run.tier, 3, 20)) if len(m["out"]) > m["dict"]]
     groups = []
+    if run.tier == "thorough":
+        # one single write of more than 4 MiB (and the same bytes in 300 kB writes): incompressible data through the
+        # crate's own literal-only encoding, so the compressed stream is as long as the data
+        big = rng.bytes(4600000)
+        bigenc = pylzma.compress(big, format=pylzma.FORMAT_ALONE, filters=[{"id": pylzma.FILTER_LZMA1, "preset": 0, "dict_size": 1 << 16}])
+        for parts in ([len(bigenc)], [300000] * (len(bigenc) // 300000) + [len(bigenc) % 300000]):
+            run.add("stream us=hdr ops=%s" % stream_ops(bigenc, [p_ for p_ in parts if p_]),
+                    oracle=lambda res, meta, peak, out=big: None if stream_verdict(res) == "ok" and outfield(res) == out_repr(out) else
+                    "a long stream written in %d call(s) was not decoded correctly: %s" % (meta["ncalls"], res[-80:]), tag="c15:huge-write", ncalls=len(parts),
+                    cmp=False)       # implementation-only (the list-based model needs hours for 4.6 million literals)
     for m in mats:
         L = len(m["out"])
         forms = [("hdr", lzma_file(m), 13)]
@@ -756,11 +847,18 @@ def c15(run: Run):
             tr = run.add("trace us=%s in=%s" % (us, data.hex()), oracle=None, cmp=False, tag="c15:trace", nontrivial=False)
             cuts = sorted(set([hl + 5, hl + 6, hl + 7, hl + 12, len(data) // 2, len(data) - 1, len(data)] +
                               [rng.below(len(data)) + 1 for _ in range(sizes(run.tier, 3, 8))]))
+            if m.get("costly"):
+                if us != "hdr":
+                    continue
+                cuts = list(range(len(data) - 24, len(data) + 1))
             for cut in cuts:
                 if cut < hl + 5 or cut > len(data):
                     continue
                 pre = data[:cut]
                 chs = chunkings(rng, len(pre), sizes(run.tier, 2, 5))
+                if m.get("costly"):
+                    # the write boundary inside the expensive symbol
+                    chs = [[len(pre) - k_, k_] for k_ in (1, 2, 5, 17) if k_ < len(pre)]
                 # a first piece shorter than header + preamble, then everything else in one go
                 chs.append([rng.below(hl + 4) + 1, len(pre)])
                 for parts in chs:
@@ -962,6 +1060,22 @@ def c16(run: Run):
         k = rng.below(9) + 1
         ops = ["wa:" + data[:k].hex(), "wa:" + data[k:].hex(), "w:0000", "f", "w:" + data.hex(), "fin"]
         run.add("stream us=up:none ai=%d ops=%s" % (rng.below(2), ";".join(ops)), oracle=latch_oracle, tag="c16:corrupt-in-staging")
+    # (e) tiny streams, size supplied by the caller (5-byte header), header and preamble in small pieces, over-long
+    # input: the size is reached inside the bytes still staged
+    for b in core.script([dict(kind="lzma", lc=3, lp=0, pb=2, dict=4096, prog=pr) for pr in ("L65", "L65,L66", "L65,S", "L1,L2,L3", "L65,M1.5")]):
+        n_ = len(b["out"])
+        data = lzma_header(3, 0, 2, 4096, "skip") + b["payload"] + rng.bytes(rng.pick([3, 8, 30]))
+        for c_ in (1, 2, 3, 4, 6, 7, 9):
+            pieces = [data[i:i + c_] for i in range(0, len(data), c_)]
+            run.add("stream us=up:%d ops=%s" % (n_, ";".join(["wa:" + x.hex() for x in pieces] + ["w:00", "go", "fin"])),
+                    oracle=lambda res, meta, peak: "panic/hang in a call sequence" if (any("panic" in t for t in res.split(" ") if "=" not in t)
+                                                                                       or v(res) in ("hang", "abort", "missing")) else None,
+                    tag="c16:tiny-provided-size")
+    # (f) the range coder's initial code at its extremes (all ones: code = range), fed in pieces
+    for code in (0xFFFFFFFF, 0x7FFFFC00, 0):
+        data = lzma_header(3, 0, 2, 4096, None) + b"\x00" + code.to_bytes(4, "big") + rng.bytes(20)
+        for parts in chunkings(rng, len(data), 3):
+            run.add("stream us=hdr ops=%s" % stream_ops(data, parts, op="w"), oracle=latch_oracle, tag="c16:coder-extremes")
     # header-state errors
     run.add("stream us=hdr ops=w:%s;w:00;w:%s;fin" % ((bytes([230]) + bytes(30)).hex(), bytes(40).hex()),
             oracle=latch_oracle, tag="c16:bad-header")
